@@ -609,7 +609,7 @@ def builtin_mqtt_sessions(base, model_available=True):
     try:
         for name, enter_fails, faults in positions:
             for with_persistence in (False, True):
-                for slow_subscribe in (False, True):
+                for slow_subscribe in (False, True) + (("hang",) if any(faults) else ()):
                     n += 1
                     loop = VLoop()
                     loop.set_default_executor(InlineExecutor())
@@ -635,6 +635,8 @@ def builtin_mqtt_sessions(base, model_available=True):
                                 await asyncio.sleep(0)
                             if self.broken and k < len(faults) and faults[k]:
                                 raise MqttError("subscription refused")
+                            if slow_subscribe == "hang" and self.broken:
+                                await asyncio.Event().wait()    # the broker never acknowledges this one
                             await super().subscribe(topic, **kw)
 
                     mqtt_mod.AsyncioClient = Fake
@@ -688,8 +690,8 @@ def builtin_mqtt_sessions(base, model_available=True):
                             problems.append(f"the next session with a healthy broker: {type(exc2).__name__ if exc2 else 'no error'}, inside {inside2}, {len(left2)} task(s) left")
                     for pr in problems:
                         fs.append({"kind": "oracle", "sig": "C16:builtin-mqtt",
-                                   "desc": f"MQTTClient session, connect fault '{name}' (persistence {'on' if with_persistence else 'off'}, subscriptions {'suspending' if slow_subscribe else 'immediate'}): {pr}",
-                                   "case": {"fault": name, "persistence": with_persistence, "slow_subscribe": slow_subscribe}})
+                                   "desc": f"MQTTClient session, connect fault '{name}' (persistence {'on' if with_persistence else 'off'}, subscriptions {'never acknowledged' if slow_subscribe == 'hang' else 'suspending' if slow_subscribe else 'immediate'}): {pr}",
+                                   "case": {"fault": name, "persistence": with_persistence, "slow_subscribe": str(slow_subscribe)}})
                     # model
                     d.add(f"MQC {enc_str('in')} {1 if enter_fails else 0} {enc_faults(faults)} 0")
                     outcome = "ok" if exc is None else ("TE" if isinstance(exc, ex.TransportError) else "RT" if isinstance(exc, RuntimeError) else type(exc).__name__)
